@@ -27,7 +27,7 @@
    !fuel = a run to quiescence ran out of fuel; !disabled = a step the adapter asked for was not enabled: neither is
    ever passed off as a result. *)
 From Coq Require Import List NArith Bool Arith String.
-From Snow Require Import Lib.Wire Model.Peers Model.Connect Model.CloseConn.
+From Snow Require Import Lib.Wire Model.Peers Model.Connect Model.CloseConn Model.BrokerExchange.
 From Snow Require Run.ConnectRun.
 Import ListNotations.
 Open Scope N_scope.
@@ -85,9 +85,12 @@ Definition flags (x : kx) (r : bytes) : bytes :=
 Definition scenario (kv : kversion) (max : nat) (kind pre closes : bytes) : option bytes :=
   let x0 := mkX (kinit max) false false in
   let first :=
-    if beq kind (bs "fail") then Some (Some false)
+    if beq kind (bs "silent") then
+      (* held until the code's own timer ends the exchange: legal only if Model/BrokerExchange.v says it does end, failed *)
+      match negotiate_outcome code_transport B_Silent with Some false => Some None | _ => None end
+    else if beq kind (bs "fail") then Some (Some false)
     else if beq kind (bs "good") then Some (Some true)
-    else if beq kind (bs "hold") || beq kind (bs "holdgood") || beq kind (bs "silent") then Some None
+    else if beq kind (bs "hold") || beq kind (bs "holdgood") then Some None
     else None in
   let pre_l :=
     if beq pre (bs "none") then Some []
@@ -137,7 +140,13 @@ Definition good_outcomes : outcomes := mkO true true true true true true true.
 
 Definition fail_outcomes (kind : bytes) : option outcomes :=
   if beq kind (bs "ice") then Some (mkO false true true true true true true)
-  else if beq kind (bs "unreach") || beq kind (bs "refuse") || beq kind (bs "badjson") || beq kind (bs "silent")
+  else if beq kind (bs "silent") then
+    (* Negotiate's outcome is what the exchange over the code's transport gives against a silent broker *)
+    match negotiate_outcome code_transport B_Silent with
+    | Some ok => Some (mkO true true true true ok true true)
+    | None => None
+    end
+  else if beq kind (bs "unreach") || beq kind (bs "refuse") || beq kind (bs "badjson")
        then Some (mkO true true true true false true true)
   else if beq kind (bs "badsdp") then Some (mkO true true true true true false true)
   else if beq kind (bs "noopen") then Some (mkO true true true true true true false)
